@@ -124,30 +124,11 @@ func c16r11(p *model.Prog, r *report.Result) {
 
 // c20r6: a session's connection is configured before the session is published to the group.
 func c20r6(p *model.Prog, r *report.Result) {
-	r.Rule("C20.R6", "in rtmp.ServerSession.doPublish / doPlay the call modConnProps() (which switches the connection to its asynchronous write queue and sets time-outs with naza calls that are not safe for concurrent use) dominates the observer call OnNewRtmpPubSession / OnNewRtmpSubSession: once the group knows the session, the fan-out goroutine writes to the connection concurrently")
-	mod := p.MethodObj("pkg/rtmp", "ServerSession", "modConnProps")
-	for _, name := range []string{"doPublish", "doPlay"} {
-		fn := p.Method("pkg/rtmp", "ServerSession", name)
-		mods := model.CallsTo(fn, mod)
-		var obs []ssa.CallInstruction
-		for _, ci := range model.AllCalls(fn) {
-			if ci.Common().IsInvoke() && (ci.Common().Method.Name() == "OnNewRtmpPubSession" || ci.Common().Method.Name() == "OnNewRtmpSubSession") {
-				obs = append(obs, ci)
-			}
-		}
-		if len(obs) == 0 || len(mods) == 0 {
-			r.Bad("C20.R6", fkey(fn, "publish-to-group", "floor"), p.Pos(fn.Pos()), "modConnProps / observer call not found")
-			continue
-		}
-		for _, o := range obs {
-			dom := false
-			for _, m := range mods {
-				if model.InstrDominates(m, o) {
-					dom = true
-				}
-			}
-			r.Check(dom, "C20.R6", fkey(fn, "publish-to-group", "after-conn-setup"), p.InstrPos(o), "connection configured first", "the session is handed to the group before modConnProps() ran: the group's fan-out goroutine calls connection.Write while the session goroutine runs ModWriteChanSize / ModWriteTimeoutMs on the same connection (data race; and for that window the writes are synchronous under Group.mutex)")
-		}
+	r.Rule("C20.R6", "in rtmp.ServerSession.doPublish / doPlay no path (helpers and closure / bound-method arguments inlined) reaches the observer call OnNewRtmpPubSession / OnNewRtmpSubSession without having passed modConnProps() (which switches the connection to its asynchronous write queue and sets time-outs with naza calls that are not safe for concurrent use): once the group knows the session, the fan-out goroutine writes to the connection concurrently")
+	for _, pr := range [][2]string{{"doPublish", "OnNewRtmpPubSession"}, {"doPlay", "OnNewRtmpSubSession"}} {
+		fn := p.Method("pkg/rtmp", "ServerSession", pr[0])
+		ok, pos := connPropsBeforeObserver(p, pr[0], pr[1])
+		r.Check(ok, "C20.R6", fkey(fn, "publish-to-group", "after-conn-setup"), pos, "connection configured first", "the session is handed to the group before modConnProps() ran (or the observer call / modConnProps is not found): the group's fan-out goroutine calls connection.Write while the session goroutine runs ModWriteChanSize / ModWriteTimeoutMs on the same connection (data race; and for that window the writes are synchronous under Group.mutex)")
 	}
 }
 
